@@ -182,7 +182,7 @@ theorem sub_replace_reading {d d1 : Disk} (hs : SInv d) (v : Vol) (fsL : List LR
     rw [List.nodup_append] at hndw
     exact hndw.2.2 _ hu _ hsysj rfl
   -- the reading
-  obtain ⟨hrd4, htree4, htot4, hbm4, hsz4, hshape4, hgeo4, hprev4, hslotok4, hsame4⟩ :=
+  obtain ⟨hrd4, htree4, htot4, hbm4, hsz4, hshape4, hgeo4, hprev4, hslotok4, hnames4, hsame4⟩ :=
     sub_patched_reading hs.inv v' fsL' ch' hr ht ex B k hxm hd sch0 hc ey B' k' hym [] hpatch
       (fun b hb' => setUnit_other _ _ _ _ (fun e => (hschf B' hB').2.1 (e ▸ hb')))
       (fun j _ hjs _ => setUnit_other _ _ _ _ (fun e => hjs (e ▸ hB')))
@@ -247,7 +247,7 @@ theorem sub_replace_reading {d d1 : Disk} (hs : SInv d) (v : Vol) (fsL : List LR
   have hinv4 : Inv (wbRaw (setUnit d.raw B' (patched (unitAt d.raw B') (4 + k' * 39) e')) (hdrBm d.raw) (nbmOf (hdrTotal d.raw))
       (clearBit (bufOf d.raw (hdrBm d.raw) (nbmOf (hdrTotal d.raw))) B')) :=
     ⟨hshape4, by rw [htot4, hsz4]; exact hsz, _, _, ch', hrd4, by rw [htot4]; exact htree4, hw4, hn4, hgeo4, hprev4, hroot.len,
-      hslotok4 hnewok⟩
+      hslotok4 hnewok, hnames4⟩
   have hlen3 : ∀ i ∈ bmRange (hdrBm d.raw) (nbmOf (hdrTotal d.raw)),
       (unitAt (setUnit d.raw B' (patched (unitAt d.raw B') (4 + k' * 39) e')) i).length = blockSize := by
     intro i hi
